@@ -75,8 +75,12 @@ Cases ==
                                                   q == [p EXCEPT !.seed = p.seed + 1]
                                               IN  <<p, q, p, [p EXCEPT !.fd = ~p.fd], p>>]
       [] Family = "pct"     -> SetToSeq(PctSweep)
-      [] Family = "freq"    -> [i \in 1..K |-> P(i, 30, 30, 6, Num(10, 100), Num(10, 100), Num(10, 100),
-                                                  Num(RandomElement({5, 30, 50, 77, 95}), 100), i % 2 = 0)]
+      [] Family = "freq"    -> \* extreme frequencies need 10^4 tiles for a 6-sigma test to have any power
+                               << P(7, 100, 100, 6, Num(10, 100), Num(10, 100), Num(10, 100), Num(4, 1000), FALSE),
+                                  P(8, 100, 100, 6, Num(10, 100), Num(10, 100), Num(10, 100), Num(996, 1000), TRUE) >> \o
+                               [i \in 1..K |-> P(i, 30, 30, 6, Num(10, 100), Num(10, 100), Num(10, 100),
+                                                  RandomElement({Num(5, 100), Num(30, 100), Num(50, 100), Num(77, 100), Num(95, 100),
+                                                                 Num(4, 1000), Num(996, 1000), Num(125, 1000)}), i % 2 = 0)]
 
 ASSUME JsonSerialize(Out, Cases)
 ASSUME PrintT(ToJson([family |-> Family, count |-> Len(Cases)]))
